@@ -82,8 +82,10 @@ def run(ctx):
                 ("Metadata.gen.conc.cfg", "num=30", 40, 30)]
 
     # concurrent refreshers (spec/MetadataRefreshers.tla): 2 and 3 callers, Metadata.Retry.Max 0 and 1
+    # (the 3-caller interleavings are exhausted in the thorough tier only: up to 9.8M states)
     for tag in ("n2r0", "n2r1", "n3r0", "n3r1"):
-        mc.append(("MetadataRefreshers.mc.%s.cfg" % tag, "cref-" + tag))
+        if thorough or tag.startswith("n2"):
+            mc.append(("MetadataRefreshers.mc.%s.cfg" % tag, "cref-" + tag))
         gens.append(("MetadataRefreshers.gen.%s.cfg" % tag, None, None, None))
 
     def do_mc(item):
@@ -111,6 +113,9 @@ def run(ctx):
 
     with concurrent.futures.ThreadPoolExecutor(max_workers=18) as ex:
         fm = [ex.submit(do_mc, m) for m in mc]
+        # known finding F-C15-open-window: the model of the code as it is must exhibit it
+        ffind = ex.submit(ctx.tlc, "MetadataRefreshers", "MetadataRefreshers.finding.cfg", 2, 600, None, None, None, None, None,
+                          False, None, None, False, "finding")
         fg = [ex.submit(do_gen, g) for g in gens]
         gen_res = [f.result() for f in fg]
         cases = os.path.join(ctx.scratch, "cases.ndjson")
@@ -129,6 +134,19 @@ def run(ctx):
                 ncases += k
                 gstats.append({"cfg": cfg, "mode": "simulate " + sim if sim else ("exhaustive" if total == len(cs) else "exhaustive enumeration of %d, seeded sample replayed" % total), "cases": k,
                                "states": r.distinct, "generated": r.generated})
+            # the model's counterexample for F-C15-open-window, steered on the real client (deterministic in every tier)
+            for s0 in list(seen):
+                if '"fam":"cref"' not in s0 or '"nref":2' not in s0 or '"retry":0' not in s0:
+                    continue
+                c0 = json.loads(s0)
+                st1 = c0["steps"][1]
+                if st1["down"] == ["s1", "b1a", "b2a"] and set(st1["modes"]) == {"refuse"} and st1["req"] == []:
+                    c0["steer"] = "openwin"
+                    f.write(json.dumps(c0, separators=(",", ":")) + "\n")
+                    ncases += 1
+                    gstats.append({"cfg": "MetadataRefreshers.finding.cfg", "mode": "counterexample of the model, steered", "cases": 1,
+                                   "states": 0, "generated": 0})
+                    break
         if ncases == 0:
             raise vlib.Inconclusive("no cases generated")
         # ---- replay on the real client while the exhaustive runs finish
@@ -136,6 +154,11 @@ def run(ctx):
                                       only=["metadata*"])
         mc_res = [f.result() for f in fm]
     ctx.need_go(rc, out, "metadata replay")
+    rfind = ffind.result()
+    ctx.need(rfind, "known finding in the model", allow_violation=True)
+    if rfind.violated != "RefreshSucceedsStrict":
+        raise vlib.Inconclusive("spec/MetadataRefreshers.tla no longer exhibits known finding F-C15-open-window "
+                                "(expected RefreshSucceedsStrict violated, got %r)" % rfind.violated)
     mstats = []
     for fam, cfg, r in mc_res:
         ctx.need(r, "exhaustive model checking " + cfg)
@@ -178,7 +201,11 @@ def run(ctx):
             h = heads.get(v["trace"], {})
             v["features"] = {"family": h.get("fam"), "version": h.get("ver"), "case": h.get("idx"), "step": e.get("k"),
                              "mutation": e.get("mut"), "request": e.get("req"), "down": e.get("down"),
-                             "modes": e.get("modes"), "result": e.get("result"), "what": e.get("what")}
+                             "modes": e.get("modes"), "result": e.get("result"), "what": e.get("what"),
+                             "callers": e.get("nref"), "retry_max": e.get("retry"), "steered": e.get("steer") or "",
+                             # cause level: some caller got ErrNotConnected from a candidate that answers
+                             # (a request issued inside Broker.Open's window, harness/inpkg mdLogger)
+                             "notconn_on_answering_candidate": any(x not in (e.get("down") or []) for x in (e.get("notconn") or []))}
             viols.append(v)
     byclause = {c: 0 for c in CLAUSES}
     for v in viols:
@@ -197,6 +224,8 @@ def run(ctx):
         "concurrent_reads_made": summary["conc_reads"],
         "concurrent_reads_validated": tot["conc"],
         "harness": {k: summary[k] for k in summary if k != "samples"},
+        "model_exhibits_known_finding": {"cfg": "MetadataRefreshers.finding.cfg", "violated": rfind.violated,
+                                         "states": rfind.distinct},
         "clauses": CLAUSES,
         "violations_by_clause": byclause,
         "explanation": "role 1: TLC exhausts spec/Metadata.tla (families content / reach / conc) with the clauses of C15 as "
